@@ -25,4 +25,13 @@ TEXT = {
          "text": "Theorems C07.defective_rejected (each listed defect, at any position, yields an error), error_no_program, unknown_default_error / no_groups_error / no_tables_error (exact classes), accepted_conditions_valid and accepted_names_known (nothing is dropped silently). Go panics are caught by the harness and reported as PANIC, which the model never answers.",
          "note": COMMON_NOTE + "'valid ⇒ accepted' is established by the correspondence on generated valid policies and by accepted-examples in Lean; the general converse is not yet a theorem (stated in DESIGN.md)."},
 }
+TEXT["C09"] = {"ref": "§6 C09", "technique": "Lean 4 proof over the regenerated loader skeleton on an abstract kernel + live-kernel histories",
+ "text": "Theorems C09.load_nil_implies_installed, failed_load_attaches_nothing, kernel_refusal_is_error (unknown flags, rejected/oversize program, missing privilege, refused thread-sync), failed_assemble_leaves_nothing, probe_pure — about Gen.loadFilter/Gen.supported, the Lean rendering of seccomp_linux.go regenerated from the source on every run, for all worlds, schedules and filters. Live correspondence: generated histories of real LoadFilter/Supported calls in child processes; return values and per-thread Seccomp_filters/NoNewPrivs from /proc compared with the skeleton run on the abstract kernel.",
+ "note": COMMON_NOTE + "Partial: the kernel's seccomp/prctl semantics are modelled (Model/Kernel.lean), exercised on the host kernel only."}
+TEXT["C10"] = {"ref": "§6 C10", "technique": "Lean 4 proof (invariant over all later histories on the abstract multi-thread kernel) + live runs with up to 63 threads",
+ "text": "Theorems C10.flags_unmodified (the one seccomp call carries Filter.Flag, SET_MODE_FILTER and the compiled program), tsync_covers_existing, step_preserves and tsync_covers_all_threads (induction over every later history of clone/exit/seccomp/prctl/reschedule steps by any thread), no_tsync_touches_caller_only. Live: thread-sync loads with extra threads spinning, sleeping, blocked in read and spawning threads; every task in /proc and a thread created afterwards must carry the filter; the flag word captured by the hook must equal Filter.Flag.",
+ "note": COMMON_NOTE + "Partial: atomicity of the kernel's TSYNC step is assumed; real interleavings are sampled."}
+TEXT["C11"] = {"ref": "§6 C11", "technique": "Lean 4 proof over the regenerated skeleton with a schedule oracle + forced-migration live runs",
+ "text": "Theorems C11.nnp_before_install_same_thread (the kernel log is prctl(38,1,0,0,0) then seccomp on the entry thread, for every schedule oracle), unprivileged_can_load, no_prctl_if_not_requested, nnp_untouched_if_not_requested, unprivileged_without_nnp_fails; the model exhibits the failing schedule for a loader without the lock (migration_breaks_unlocked_load). Live: unprivileged children, unpinned goroutine, migration attempts at the hook between prctl and seccomp.",
+ "note": COMMON_NOTE + "Partial: the Go scheduler is modelled only as 'may move at a schedule point unless locked'."}
 NOT_BUILT = {}
